@@ -138,10 +138,17 @@ const MarkPrefix = "verif-i"
 type CountingInterceptor struct {
 	Index  int
 	Panics bool
-	mu     sync.Mutex
-	Calls  map[int64]int
-	Order  []int64
+	// Kind of panic value when Panics: 0 string, 1 error, 2 runtime.Error from a nil-map write, 3 runtime.Error from an
+	// index out of range, 4 runtime.Error from a nil dereference, 5 a value of a custom type
+	Kind  int
+	mu    sync.Mutex
+	Calls map[int64]int
+	Order []int64
 }
+
+type customPanic struct{ code int }
+
+var PanicKinds = []string{"string", "error", "runtime:nil-map-write", "runtime:index-out-of-range", "runtime:nil-dereference", "custom-type"}
 
 func (c *CountingInterceptor) OnConsume(m *sarama.ConsumerMessage) {
 	c.mu.Lock()
@@ -152,6 +159,21 @@ func (c *CountingInterceptor) OnConsume(m *sarama.ConsumerMessage) {
 	c.Order = append(c.Order, m.Offset)
 	c.mu.Unlock()
 	if c.Panics {
+		switch c.Kind {
+		case 1:
+			panic(fmt.Errorf("interceptor %d fails", c.Index))
+		case 2:
+			var notMade map[string]int
+			notMade["x"] = 1
+		case 3:
+			var empty []int
+			_ = empty[c.Index+3]
+		case 4:
+			var nobody *sarama.ConsumerMessage
+			_ = nobody.Offset
+		case 5:
+			panic(customPanic{c.Index})
+		}
 		panic(fmt.Sprintf("interceptor %d panics", c.Index))
 	}
 	m.Headers = append(m.Headers, &sarama.RecordHeader{Key: []byte(fmt.Sprintf("%s%d", MarkPrefix, c.Index)), Value: []byte{byte(len(m.Headers))}})
